@@ -185,6 +185,7 @@ impl Stream for PutqStream {
                 match r {
                     Err(m) => {
                         out.violation("C08", "tally-overflow", format!("counting reply #{} panicked: {m} (acks so far {}, errors so far {})", i, self.acks, self.codes.len()));
+                        out.violation("C05", "putquery-panic", format!("handling reply #{} of a put panicked: {m}", i));
                         "panic".into()
                     }
                     Ok(0) => {
